@@ -47,6 +47,19 @@ func (s *State) newInput(name string, sort Sort) *Term {
 	return t
 }
 
+// fixInput records an enumerated (solver-free) choice so that it appears in models/replay files.
+func (s *State) fixInput(name, val string) {
+	if s.run.inputNames[name] {
+		panic(abortf("duplicate symbolic input name %q", name))
+	}
+	s.run.inputNames[name] = true
+	if s.run.fixed == nil {
+		s.run.fixed = map[string]string{}
+	}
+	s.run.fixed[name] = val
+	s.run.fixedOrder = append(s.run.fixedOrder, name)
+}
+
 func sliceTerms(s *State, v Value) []*Term {
 	sv := v.(SliceV)
 	out := make([]*Term, sv.n)
@@ -122,6 +135,14 @@ func init() {
 			s.setInfo(t, &FInfo{exact: false, scale: -1, lo: new(big.Rat).Neg(q), hi: q})
 			return t
 		}
+		if !s.eng.cfg.IntInputs {
+			// relaxation: the solver sees an arbitrary real of the range (pure NRA, decided by nlsat); the
+			// exactness bookkeeping still knows the value is an integer-valued float64 of that magnitude
+			t := s.newInput(argStr(a[0]), SReal)
+			s.assumeRaw(s.ctx.And(s.ctx.Le(s.ctx.RealConst(new(big.Rat).Neg(q)), t), s.ctx.Le(t, s.ctx.RealConst(q))))
+			s.setInfo(t, &FInfo{exact: true, scale: 0, lo: new(big.Rat).Neg(q), hi: q})
+			return t
+		}
 		t := s.newInput(argStr(a[0]), SInt)
 		s.assumeRaw(s.ctx.And(s.ctx.Le(s.ctx.IntConstBig(new(big.Int).Neg(lim)), t), s.ctx.Le(t, s.ctx.IntConstBig(lim))))
 		s.setInfo(t, &FInfo{exact: true, scale: 0, lo: new(big.Rat).Neg(q), hi: q})
@@ -139,6 +160,12 @@ func init() {
 			s.setInfo(t, &FInfo{exact: false, scale: -1, lo: big.NewRat(lo, 1), hi: big.NewRat(hi, 1)})
 			return t
 		}
+		if !s.eng.cfg.IntInputs {
+			t := s.newInput(argStr(a[0]), SReal)
+			s.assumeRaw(s.ctx.And(s.ctx.Le(s.ctx.RealConst(big.NewRat(lo, 1)), t), s.ctx.Le(t, s.ctx.RealConst(big.NewRat(hi, 1)))))
+			s.setInfo(t, &FInfo{exact: true, scale: 0, lo: big.NewRat(lo, 1), hi: big.NewRat(hi, 1)})
+			return t
+		}
 		t := s.newInput(argStr(a[0]), SInt)
 		s.assumeRaw(s.ctx.And(s.ctx.Le(s.ctx.IntConst(lo), t), s.ctx.Le(t, s.ctx.IntConst(hi))))
 		s.setInfo(t, &FInfo{exact: true, scale: 0, lo: big.NewRat(lo, 1), hi: big.NewRat(hi, 1)})
@@ -151,15 +178,13 @@ func init() {
 		if hi < lo {
 			panic(pathEnd{"empty choice"})
 		}
-		t := s.newInput(argStr(a[0]), BV(64))
 		v := s.chooseFree(lo, hi)
-		s.assumeRaw(s.ctx.Eq(t, c64(s, v)))
+		s.fixInput(argStr(a[0]), fmt.Sprintf("0x%x", uint64(v)))
 		return c64(s, v)
 	})
 	reg(symPkg+".Flip", func(s *State, fn *ssa.Function, a []Value) Value {
-		t := s.newInput(argStr(a[0]), SBool)
 		v := s.chooseFree(0, 1)
-		s.assumeRaw(s.ctx.Eq(t, s.ctx.Bool(v == 1)))
+		s.fixInput(argStr(a[0]), fmt.Sprint(v))
 		return s.ctx.Bool(v == 1)
 	})
 
